@@ -630,7 +630,7 @@ func c01mrMain(args []string) error {
 	count := map[string]int{}
 	var out bytes.Buffer
 	fmt.Fprintf(&out, "# map-order entry points in: %s\n", strings.Join(pats, " "))
-	fmt.Fprintf(&out, "# classes: sorted-afterwards | order-insensitive | not-a-map | outside-replay | test-or-debug-only | SUSPECT | UNCLASSIFIED\n")
+	fmt.Fprintf(&out, "# classes: sorted-afterwards | order-insensitive | not-a-map | outside-replay | test-or-debug-only | SUSPECT | FINDING | UNCLASSIFIED\n")
 	lines := make([]string, 0, len(all))
 	for _, f := range all {
 		count[f]++
